@@ -110,6 +110,17 @@ var kinds = map[string]kindDef{
 	"E3": {typ: reflect.TypeOf(enctypes.E3{}), emb: true, val: func(v string) any {
 		return pick(v, enctypes.E3{}, enctypes.E3{Ga: 5, Gb: 6, Gc: true, Gd: 2.5, Ge: 9}, enctypes.E3{Gb: 6, Gd: 2.5})
 	}},
+	"E4": {typ: reflect.TypeOf(enctypes.E4{}), emb: true, val: func(v string) any {
+		return pick(v, enctypes.E4{}, enctypes.E4{Ha: 11, Hb: "h", E3: enctypes.E3{Ga: 5, Gb: 6, Gc: true, Gd: 2.5, Ge: 9}, Hz: true},
+			enctypes.E4{Ha: 11, E3: enctypes.E3{Gb: 6, Gd: 2.5}})
+	}},
+	// containers of struct VALUES with a zero-valued member in some element (a tag on the field must not reach the elements)
+	"[2]S": {typ: reflect.TypeOf([2]enctypes.S1{}), val: func(v string) any {
+		return pick(v, [2]enctypes.S1{}, [2]enctypes.S1{{Sa: 3}, {Sb: "x"}}, [2]enctypes.S1{{Sa: 3, Sb: "x"}, {Sa: 4, Sb: "y"}})
+	}},
+	"map[string]S": {typ: reflect.TypeOf(map[string]enctypes.S1(nil)), val: func(v string) any {
+		return pick(v, map[string]enctypes.S1(nil), map[string]enctypes.S1{"k": {Sa: 3, Sb: "x"}, "z": {}, "h": {Sb: "y"}}, map[string]enctypes.S1{})
+	}},
 	// containers of structs whose pointer / slice / map members are populated differently from element to element
 	"map[string]M":  {typ: reflect.TypeOf(map[string]enctypes.M1(nil)), val: func(v string) any { return mapM(v) }},
 	"map[string]*M": {typ: reflect.TypeOf(map[string]*enctypes.M1(nil)), val: func(v string) any { return mapPM(v) }},
